@@ -155,6 +155,43 @@ def job(args):
                     how, tb, [a.kcals_units, a.fat_units, a.protein_units], a.units, a.is_list_monthly(), b.units), rp)
             elif not all(np.allclose(x, y, rtol=1e-12, atol=0) for x, y in zip(vals_of(a), vals_of(b))):
                 bad("factor_kcals", "%s of a series -> %s: %s, the same quantity written down directly gives %s" % (how, tb, [v.tolist() for v in vals_of(a)], [v.tolist() for v in vals_of(b)]), rp)
+    # numeric representation of the numbers: whole-number quantities written as Python ints, int lists, integer and float32 arrays
+    # (Food keeps what it is given) must convert exactly like the same numbers written as float64 - every target, and back
+    reps = {"int list": lambda v: [int(x) for x in v], "int64 array": lambda v: np.array(v, dtype=np.int64), "int32 array": lambda v: np.array(v, dtype=np.int32),
+            "float list": lambda v: [float(x) for x in v], "float32 array": lambda v: np.array(v, dtype=np.float32), "python int": None}
+    whole = ([1000, 2000, 7, 0, 35], [12, 47, 1, 0, 3], [5000, 9, 2, 0, 640])
+    for rep, build in reps.items():
+        for src_base in (src_b, ("percent people fed",) * 3):
+            form = "" if build is None else " each month"
+            try:
+                if build is None:
+                    q = Food(int(whole[0][0]), int(whole[1][0]), int(whole[2][0]), *[b + form for b in src_base])
+                    ref = Food(float(whole[0][0]), float(whole[1][0]), float(whole[2][0]), *[b + form for b in src_base])
+                else:
+                    q = Food(build(whole[0]), build(whole[1]), build(whole[2]), *[b + form for b in src_base])
+                    ref = Food(np.array(whole[0], dtype=float), np.array(whole[1], dtype=float), np.array(whole[2], dtype=float), *[b + form for b in src_base])
+            except (AssertionError, TypeError, ValueError):
+                continue
+            before = vals_of(q)
+            tol = 1e-6 if "float32" in rep else 1e-9
+            for tb in targets:
+                n += 1
+                rp = {"setting": si, "representation": rep, "from": list(src_base), "to": tb}
+                try:
+                    a, b = q.in_units(*tb), ref.in_units(*tb)
+                    back = a.in_units(*src_base)
+                except AssertionError as e:
+                    bad("conversion_refused", "%s quantity in %s -> %s refused: %r" % (rep, src_base, tb, e), rp)
+                    continue
+                for x, y, nm in zip(vals_of(a), vals_of(b), ("kcals", "fat", "protein")):
+                    if not np.allclose(x, y, rtol=tol, atol=0):
+                        bad("factor_" + nm, "whole numbers written as %s in %s -> %s: %s %r, the same numbers as float64 give %r" % (rep, src_base, tb, nm, x.tolist(), y.tolist()), rp)
+                for x, y, nm in zip(vals_of(back), before, ("kcals", "fat", "protein")):
+                    if not np.allclose(x, y, rtol=tol, atol=0):
+                        bad("round_trip_" + nm, "whole numbers written as %s in %s -> %s -> back: %r != %r" % (rep, src_base, tb, x.tolist(), y.tolist()), rp)
+                for x, y in zip(vals_of(q), before):
+                    if not np.array_equal(x, y):
+                        bad("operand_modified", "%s quantity -> %s modified the source" % (rep, tb), rp)
     # anchors (once per setting)
     need = Food(kd * U.DAYS * pop / 1e9, fd * U.DAYS * pop / 1e9, pd * U.DAYS * pop / 1e9, "billion kcals per month", "thousand tons per month", "thousand tons per month")
     for name, fn, want in (("percent_fed", need.in_units_percent_fed, (100.0, 100.0, 100.0)),
